@@ -14,7 +14,7 @@ CLAIMED = {
  "C03": ("pv", "mutation of authentic tokens: exhaustive single-edit neighbourhoods (bit flips, character substitutions, prefixes, insert/delete, non-canonical base64) + proptest-generated multi-edits and splices, with an accept/reject oracle on the error class",
          "For fixed tokens per protocol x layer every single-bit flip, every single-character substitution (70 symbols), every prefix, byte insertion/deletion at every offset and every non-canonical base64 variant is enumerated; random edits, multi-edit scripts and 8 splice kinds are generated. Rejections must be format/authentication errors with 0 validator calls; acceptance only in the two tolerated classes.", PV_NOTE),
  "C04": ("pv", "metamorphic key substitution: exhaustive single-bit neighbours of the key + generated other keys (proptest), control parse under the right key",
-         "parse_{K'}(build_K(m)) must fail for all single-bit neighbours, all-zero/all-one, negated/degenerate points, other generated keys and other RSA pool keys, at all three layers; the control under K must succeed in the same case.", PV_NOTE),
+         "parse_{K'}(build_K(m)) must fail for all single-bit neighbours, all-zero/all-one, negated/degenerate points, permuted / two-bit / hex-respelled keys, keys built from material of another length, other generated keys and other RSA pool keys, at all three layers; judged through a parser that has just accepted the token under K, and with the key object overwritten in place.", PV_NOTE),
  "C05": ("pv", "metamorphic footer relations (related footers built by construction, token-side footer-segment edits) with an iff-oracle; proptest",
          "accept iff norm(F') == norm(F) checked in both directions, footer-segment edits rejected under both the original and the edited value, produced footer segment equals base64url(F) iff F non-empty; 8 protocols x 3 layers.", PV_NOTE),
  "C06": ("pv", "metamorphic assertion relations with an iff-oracle, not-stored and length-independence checks, footer/assertion re-split; proptest",
@@ -25,32 +25,32 @@ CLAIMED = {
          "Byte-for-byte comparison of local tokens with the reference, cross-verification of public tokens in both directions, library decryption of reference tokens with arbitrary wire nonces, footer-segment structure; the reference re-derives every official vector before each run.",
          PV_NOTE + "; RSA-PSS (ring) and Poly1305 primitives are shared with the library"),
  "C09": ("pv", "exhaustive length/prefix/hex sweeps + generated arbitrary text under catch_unwind (proptest); thorough adds a libFuzzer target",
-         "Every decoded payload length 0..=400 per header/layer, every prefix/suffix/deletion of authentic tokens and every hex-key length 0..=200 are enumerated completely; arbitrary token text is generated (20k quick / 600k thorough). Any unwind is a violation keyed by panic location.", PV_NOTE),
- "C10": ("pv", "history invariant over N generated builds per (version, builder, mode): pairwise-distinct nonces/tokens + per-bit Hoeffding bound + per-byte variety",
-         "24 histories of 20,000 (quick) / 100,000 (thorough) builds under one key with identical or varying claims and with one builder built repeatedly; nonce fields must be pairwise distinct, every nonce bit within N/2 +- sqrt(30N), every byte position varied.",
+         "Every decoded payload length 0..=400 per header/layer, every prefix/suffix/deletion of authentic tokens and every hex-key length 0..=200 (valid hex to 1100 and around powers of two to 2^20) are enumerated completely; arbitrary token text, footer segments decoding to (unbalanced) JSON documents and authentic tokens with hostile claim values are generated (60k quick / 1.1M thorough). Any unwind is a violation keyed by panic location.", PV_NOTE),
+ "C10": ("pv", "history invariant over N generated builds per (version, builder, mode) - sequential, interleaved with other versions, concurrent on 8/16 threads, continued in a forked process: pairwise-distinct nonces/tokens + per-bit Hoeffding bound + per-byte variety",
+         "24 histories of 20,000 (quick) / 100,000 (thorough) builds under one key with identical or varying claims and with one builder built repeatedly, plus large claims, generated interleavings with other versions, 8 concurrent histories (8/16 threads at the same time) and 24 histories continued in a forked child; nonce fields must be pairwise distinct (no shared 8-byte window for v3/v4), every nonce bit within N/2 +- sqrt(30N), every byte position varied.",
          PV_NOTE + "; observes the OS RNG, unpredictability itself is not decidable by observation"),
  "C11": ("pv", "model-based: generated instants x renderings (offset, fraction, separator, zone) and non-timestamp values placed in exp of authentic tokens, accept/reject model with don't-care classes; proptest + deterministic offset grid",
-         "PasetoParser::default() on authentic tokens of all 8 protocols whose exp is past/future (log-uniform distance from 2 s to 1971 / 60 s to year 9000) in every UTC offset and fraction form, or a non-timestamp JSON value; must reject past and malformed, accept absent and strict future.", PV_NOTE + "; reads the wall clock with >= 2 s / >= 60 s margins"),
+         "PasetoParser::default() on authentic tokens of all 8 protocols whose exp is past/future (log-uniform distance from 2 s to 1971 / 60 s to year 9000) in every UTC offset and fraction form, or a non-timestamp JSON value; must reject past and malformed (21 near-miss formats), accept absent and strict future; members written twice and decoy members; claims handed back never show an expired exp; the same parser is kept across the instant its token expires; the whole rule set re-run in child processes whose wall clock is SET to 5 (thorough 12) calendar boundaries.", PV_NOTE + "; reads the wall clock with >= 2 s / >= 60 s margins; the SET clock needs the system cc (skipped, and said so in the evidence, without it)"),
  "C12": ("pv", "model-based as C11 for nbf plus all (exp, nbf) class combinations; proptest + deterministic grid",
-         "Same space as C11 with the direction reversed for nbf and the 25 (exp class x nbf class) combinations; accept iff exp in {absent, future} and nbf in {absent, past}.", PV_NOTE + "; reads the wall clock with margins"),
+         "Same space as C11 with the direction reversed for nbf and the 25 (exp class x nbf class) combinations; accept iff exp in {absent, future} and nbf in {absent, past}; near-miss formats, members written twice, decoy members, clock crossing and SET-clock children as for C11.", PV_NOTE + "; reads the wall clock with margins"),
  "C13": ("pv", "stateful model-based testing of PasetoBuilder call histories: exhaustive to length 5/6 over a 9-operation alphabet + proptest-generated histories to length 30; payload read back through GenericParser",
-         "Every token returned by any build of any history (incl. repeated builds) must satisfy the exp/acknowledgement rule, the creation-time defaults (iat = nbf = creation instant, exp = +3600 s exactly) and carry every supplied value; exhaustive short histories on v4.local, generated ones on all protocols.", PV_NOTE + "; reads the wall clock around Default::default() with +-1 s slack"),
+         "Every token returned by any build of any history (incl. repeated builds) must satisfy the exp/acknowledgement rule, the creation-time defaults (iat = nbf = creation instant, exp = +3600 s exactly) and carry every supplied value; exhaustive short histories on v4.local, generated ones on all protocols (two interleaved builders, near-miss timestamp formats as supplied values, payloads beyond 64 KiB); builders that wait 3-6 s (thorough 31/61 s) before building; every history to length 4 re-run under a wall clock SET to calendar boundaries.", PV_NOTE + "; reads the wall clock around Default::default() with +-1 s slack"),
  "C14": ("pv", "stateful model-based testing of GenericBuilder set/remove/build histories against a reference map; generated JSON trees and native Rust values; proptest",
-         "GenericParser must return exactly the model map at every build of every generated history (overwrite, removal, nested, non-ASCII, native-typed, registered claims), on all 8 protocols.", PV_NOTE + "; serde_json is the oracle's JSON library"),
+         "GenericParser must return exactly the model map at every build of every generated history (overwrite, removal, nested, non-ASCII, native-typed incl. f32/f64/128-bit, registered claims incl. XClaim::default(), documents with hundreds of containers, extend_claims), on all 8 protocols.", PV_NOTE + "; serde_json is the oracle's JSON library"),
  "C15": ("pv", "model-based: expectation sets related to the token's claim set by construction, sequences of 1-6 tokens through one parser, iff-oracle incl. error variant; proptest",
-         "accept iff every expected claim is present, non-null and JSON-equal; Missing(k) for a single absent claim; outcome independent of parse history; GenericParser and PasetoParser on all 8 protocols.", PV_NOTE),
+         "accept iff every expected claim is present, non-null and JSON-equal; Missing(k) for a single absent claim; outcome independent of parse history (expectations also registered between parses, through check_claim or extend_check_claims); ulp neighbours, same text / other type, respelled timestamps; GenericParser and PasetoParser on all 8 protocols.", PV_NOTE),
  "C16": ("pv", "model-based with instrumented 'static validator functions (thread-local call log) over authentic and unauthenticated tokens, sequences through one parser; proptest",
-         "Validators run only for authenticated tokens, see exactly payload[key], run at most once, a rejecting verdict fails the parse with a claim error, success implies every validator ran once.", PV_NOTE),
+         "Validators run only for authenticated tokens, see exactly payload[key], run at most once, a rejecting verdict (any of six error variants) fails the parse with a claim error - also when expected claims are registered next to it and for non-object payloads -, success implies every validator ran once; validators registered late, through extend_validation_claims, with XClaim::default(), on exp/nbf of the batteries-included parser.", PV_NOTE),
  "C17": ("pv", "stateful model-based testing of PasetoBuilder call histories: exhaustive to length 4/5 over a 12-operation alphabet + proptest-generated histories to length 40",
-         "At every build of every history: a repeated key => DuplicateTopLevelPayloadClaim naming a duplicated key and no token, now and later; no repeat => success with every supplied value; exp-after-acknowledgement latitude honoured.", PV_NOTE),
- "C18": ("pv", "exhaustive sweep of all 69,905 keys of length <= 4 over a 16-symbol alphabet x 13 constructor/value-type forms + generated decorated keys and RFC 3339 / non-date strings; proptest",
+         "At every build of every history: a repeated key => DuplicateTopLevelPayloadClaim naming a duplicated key and no token, now and later; no repeat => success with every supplied value; exp-after-acknowledgement latitude honoured; near-keys (case, one character, empty key), more than 32 distinct keys, 300-character keys.", PV_NOTE),
+ "C18": ("pv", "exhaustive sweeps (69,905 keys of length <= 4 over a 16-symbol alphabet, 18,278 short lower-case keys, ~91,000 byte-truncation confusables of the reserved keys) x 13 constructor/value-type forms + generated decorated keys and RFC 3339 / non-date strings; every leap day of 0000-9999; proptest",
          "Reserved(k) iff key is exactly one of the seven, for every constructor form and value type; time-claim constructors accept every generated RFC 3339 date-time verbatim and reject the must-reject domain.", PV_NOTE),
  "C19": ("c19-driver", "exhaustive generation of a finite family of programs (metamorphic: known-good template with one type parameter replaced) with an explicit compile/reject oracle table, decided by rustc",
-         "All 525 programs of the (operation, token protocol, key protocol) family, wrong-purpose methods, assertion setters/arities and key constructions are generated and type-checked against the working tree; 439 must be rejected with type-level errors only, 86 positive templates must compile. Thorough re-checks every negative program in isolation.",
+         "All 618 programs of the (operation, token protocol, key protocol) family, wrong-purpose methods, assertion setters/arities and key constructions are generated and type-checked against the working tree; the negative ones (incl. conversions between key types of different protocols, Default, nonce sizes) must be rejected with type-level errors only, the positive templates must compile. Thorough re-checks every negative program in isolation.",
          "decided for the rustc of this image; the table covers the operations named in the statement"),
  "C20": ("c20-driver", "exhaustive enumeration of generated feature configurations with an accept oracle (cargo check/run) and ddmin shrinking",
-         "Every configuration of the stated lattice (quick: singletons, pairs, full, default, none x 3 layers; thorough: all 255 x 3) is compiled and, for the run subset, executed with one round trip per enabled protocol and layer; monotonicity pairs S<S' compiled. Exhaustive in thorough.",
-         "trusts cargo/rustc of the image; the smoke program performs one round trip per protocol and layer only"),
+         "Every configuration of the stated lattice (quick: singletons, pairs, triples at core, full, full-minus-one, default, none x layers; thorough: all 255 x 3) is compiled and, for the run subset, executed with one round trip per enabled protocol and layer plus known answers (from the harness's independent spec transcription) for the four local and the two Ed25519 protocols; monotonicity pairs S<S' compiled. Exhaustive in thorough.",
+         "trusts cargo/rustc of the image; the smoke program performs one round trip per protocol and layer and six known-answer comparisons"),
 }
 ENGINES = [
  {"name": "pv", "path": "harness", "serves_properties": sorted(k for k, v in CLAIMED.items() if v[0] == "pv"), "kind_free_text": "Rust binary: proptest TestRunner (fixed seed, shrinking, no persistence) + deterministic enumeration, explicit oracles per property, all-features build of /repo as a path dependency"},
@@ -76,7 +76,7 @@ m = {
  "engines": ENGINES,
  "checks": checks,
  "not_applicable": [{"property_id": p["id"], "reason": "check not built yet (work in progress; see DESIGN.md §6 order of construction)"} for p in props if p["id"] not in CLAIMED],
- "notes": "work in progress",
+ "notes": "all 20 properties claimed; DESIGN.md §5-§9 describe checks, sensitivity trials and false alarms",
 }
 json.dump(m, open(os.path.join(V, "MANIFEST.json"), "w"), indent=1)
 print("claimed:", [c["property_id"] for c in checks])
